@@ -71,20 +71,47 @@ def extract_get_name(repo: Path):
     tree = ast.parse(src)
     fn = _find_func(_find_class(tree, "NameSelector"), "get_name")
     table = None
+    cls = _find_class(tree, "NameSelector")
+
+    def constant_named(name):
+        """the value assigned to `name` in the class body or at module level (a hoisted table)"""
+        for scope in (cls.body, tree.body):
+            for st in scope:
+                if isinstance(st, ast.Assign) and any(isinstance(t, ast.Name) and t.id == name for t in st.targets):
+                    return st.value
+                if isinstance(st, ast.AnnAssign) and isinstance(st.target, ast.Name) and st.target.id == name and st.value:
+                    return st.value
+        raise NotFound(f"definition of the table `{name}` iterated by the replacement loop")
+
+    def pairs_of(it):
+        """(symbol, replacement) pairs, in iteration order, of the loop's iterable: a dict literal's .items(), a
+        tuple/list of 2-tuples, or a class-/module-level name bound to one of these"""
+        if isinstance(it, ast.Call) and isinstance(it.func, ast.Attribute) and it.func.attr == "items" and not it.args:
+            d = it.func.value
+            if isinstance(d, (ast.Name, ast.Attribute)):
+                d = constant_named(d.id if isinstance(d, ast.Name) else d.attr)
+            if isinstance(d, ast.Dict):
+                return list(zip(d.keys, d.values))
+            return None
+        if isinstance(it, (ast.Name, ast.Attribute)):
+            it = constant_named(it.id if isinstance(it, ast.Name) else it.attr)
+        if isinstance(it, (ast.Tuple, ast.List)) and all(isinstance(e, (ast.Tuple, ast.List)) and len(e.elts) == 2 for e in it.elts):
+            return [(e.elts[0], e.elts[1]) for e in it.elts]
+        return None
+
     for n in ast.walk(fn):
-        if (isinstance(n, ast.For) and isinstance(n.iter, ast.Call)
-                and isinstance(n.iter.func, ast.Attribute) and n.iter.func.attr == "items"
-                and isinstance(n.iter.func.value, ast.Dict)):
-            d = n.iter.func.value
+        if isinstance(n, ast.For) and (pairs := pairs_of(n.iter)) is not None:
             # the loop body must be the plain `name = name.replace(symbol, replacement)`
             body_ok = (len(n.body) == 1 and isinstance(n.body[0], ast.Assign)
                        and isinstance(n.body[0].value, ast.Call)
                        and isinstance(n.body[0].value.func, ast.Attribute)
-                       and n.body[0].value.func.attr == "replace")
+                       and n.body[0].value.func.attr == "replace"
+                       and isinstance(n.target, ast.Tuple) and len(n.target.elts) == 2
+                       and [getattr(a, "id", None) for a in n.body[0].value.args] == [getattr(t, "id", 0) for t in n.target.elts])
             if not body_ok:
                 raise NotFound("replacement loop body is not `name = name.replace(symbol, replacement)`")
             table = []
-            for k, v in zip(d.keys, d.values):
+            for k, v in pairs:
                 if not (isinstance(k, ast.Constant) and isinstance(k.value, str)
                         and isinstance(v, ast.Constant) and isinstance(v.value, str)):
                     raise NotFound("non-literal entry in the symbol table")
